@@ -402,11 +402,14 @@ func (a *ArraySubscriptExpression) SQL() string {
 	if a == nil {
 		return ""
 	}
-	s := exprSQL(a.Array)
+	var sb strings.Builder
+	sb.WriteString(exprSQL(a.Array))
 	for _, idx := range a.Indices {
-		s += "[" + exprSQL(idx) + "]"
+		sb.WriteString("[")
+		sb.WriteString(exprSQL(idx))
+		sb.WriteString("]")
 	}
-	return s
+	return sb.String()
 }
 
 func (a *ArraySliceExpression) SQL() string {
